@@ -121,6 +121,12 @@ def gen_sample(rng, count):
         if rng.random() < 0.05:
             on, du, am = [], [], []
         c = {"kind": "sample", "onsets": on, "durs": du, "amps": am}
+        if kind == "block" and du and rng.random() < 0.08:
+            # a negative duration (offset before onset): outside the property's paradigms, kept for the
+            # correspondence of the index arithmetic and for superposition; causality is not claimed
+            j = rng.randrange(len(du))
+            du[j] = -rng.choice([fs["tr"] / max(fs["os"], 1), fs["tr"], 2.5 * fs["tr"]])
+            c["negdur"] = True
         _amp_dtype(rng, c)
         c.update(fs)
         out.append(c)
@@ -224,6 +230,9 @@ def gen_dmtx(rng, count):
              "use_min_onset": rng.random() < 0.5, "light": rng.random() < 0.15, "collide": collide}
         c.update(fs)
         c["os"] = 1 if hrf == "fir" else 16
+        # the same user regressors in other dtypes / layouts, fir delays as other sequence kinds
+        c["add_layout"] = rng.choice(["float64", "float64", "int64", "int8", "float32", "F", "strided", "readonly"])
+        c["fir_kind"] = rng.choice(["list", "list", "tuple", "int64-array", "int8-array"])
         out.append(c)
     return out
 
@@ -288,4 +297,60 @@ def gen_csv(rng, count):
         vals = [[rng.choice([0.5, 1.0, -2.0, 0.1, 1e-3, 3.0, 1 / 3, 1e17, -0.0, 5e-324])
                  for _ in names] for _ in range(n)]
         out.append({"kind": "csv", "names": names, "values": vals})
+    return out
+
+
+# ---------------------------------------------------------------------------------------------
+# wave 4: kernels from their pieces, the drift block of every model, `_full_rank`
+
+def gen_hrfk(rng, count):
+    """`_gamma_difference_hrf` with rarely used arguments, and the three derivative kernels"""
+    out = []
+    for _ in range(count):
+        tr = rng.choice(EXACT_TRS + INEXACT_TRS)
+        c = {"kind": "hrfk", "tr": tr, "os": rng.choice([1, 2, 4, 8, 16, 16, 32, 3, 5]),
+             "time_length": rng.choice([32.0, 32.0, 16.0, 24.5, 40.0, 8.0]),
+             # NB the source shifts the time stamps by onset / dt (not by onset): only small onsets keep the
+             # response inside the window; the derivative kernels use onset + 0.1
+             "onset": rng.choice([0.0, 0.0, 0.0, 0.1, 0.01, -0.1, 0.05, 0.25]),
+             "which": rng.choice(["gamma", "gamma", "spm_time", "glover_time", "spm_disp", "spm", "glover"])}
+        if c["which"] == "gamma":
+            c.update({"delay": rng.choice([6, 5.0, 4.5, 7]), "undershoot": rng.choice([16.0, 12.0, 14]),
+                      "dispersion": rng.choice([1.0, 0.9, 1.25]), "u_dispersion": rng.choice([1.0, 0.9, 1.5]),
+                      "ratio": rng.choice([0.167, 0.35, 0.0, 0.25, 0.5])})
+        out.append(c)
+    return out
+
+
+def gen_mkdrift(rng, count):
+    out = []
+    for _ in range(count):
+        tr = rng.choice(EXACT_TRS)
+        model = rng.choice(["polynomial", "cosine", "blank", "Polynomial", "COSINE", "Blank", "cosine", "polynomial",
+                            "cosine", "polynomial", "Cosine", "POLYNOMIAL", "linear", "", "cosine ", "poly"])
+        out.append({"kind": "mkdrift", "model": model, "n": rng.choice([2, 3, 4, 7, 10, 16, 33]), "tr": tr,
+                    "t0": rng.choice([0.0, 0.0, tr, -3 * tr, 10.0, 0.5, -100.0]),
+                    "order": rng.choice([0, 1, 1, 2, 3, 4, 6]),
+                    "hfcut": rng.choice([128, 128.0, 64.0, 16.0, 8.0, 4.0, 2.0, 1.0, 0.5, 1000.0, 20.0, 3.0])})
+    return out
+
+
+def gen_fullrank(rng, count):
+    out = []
+    for _ in range(count):
+        n, p = rng.choice([(2, 1), (3, 2), (4, 3), (5, 2), (6, 4), (8, 3), (3, 3), (4, 4)])
+        rows = [[float(rng.choice([-2, -1, 0, 0, 1, 1, 2, 3])) for _ in range(p)] for _ in range(n)]
+        r = rng.random()
+        if r < 0.25 and p >= 2:
+            for row in rows:                       # two equal (or proportional) columns: rank deficient
+                row[1] = row[0] * 2.0
+        elif r < 0.45:
+            k = rng.choice([1e-3, 1e-6, 1e3, 2.0 ** -20])
+            for row in rows:                       # badly scaled column
+                row[-1] *= k
+        elif r < 0.55:
+            rows = [[1.0 if i == j else 0.0 for j in range(p)] for i in range(n)]     # equal singular values
+        out.append({"kind": "fullrank", "rows": rows,
+                    "cmax": rng.choice([1e15, 1e15, 10.0, 100.0, 2.0, 1000.0, 1.5, 1e6]),
+                    "default_cmax": rng.random() < 0.2, "layout": rng.choice(["C", "F", "C", "strided"])})
     return out
